@@ -254,8 +254,8 @@ func runLifeCase(c *LCase) {
 		})
 		time.Sleep(time.Duration(300+r.Intn(1500)) * time.Millisecond)
 		b := genBlind(r)
-		if b.Level < 1 {
-			b.Level = 1
+		if r.Chance(1, 3) {
+			b.Level = -1 // a break begins while the open is being retried: the retry must not open a hand
 		}
 		// the update is recorded as a step of its own (nothing else happens in it) ...
 		pre := lr.quiescentObs()
